@@ -873,7 +873,7 @@ pub fn c11(tier: &str) -> ! {
     }
     finish_common(&mut rep);
     sched_assumptions(&mut rep);
-    rep.cov("oracle", json!("sequence part: at every node without live snapshot/iterator, after one reclamation opportunity (flush of the possibly empty memtable, background idle) the three directories hold exactly CURRENT, LOCK, the current manifest, WALs >= the version's WAL number and the tables of the current layout; with a live snapshot/iterator every table of the current layout exists; schedule part: no read of a reader concurrent with compaction + deletion ever touches a removed file (strict unlink); schedule x fault part: a reader whose own table reads fail runs against flushes / compactions installing new versions, and after the fault is disarmed, everything compacted and the background idle the directories again hold exactly the needed files; crash part: every crash image (prefix of the filesystem-operation log) of the covering and generated histories is recovered, and after one reclamation opportunity the directories hold exactly the needed files — what the crash left behind is reclaimed"));
+    rep.cov("oracle", json!("sequence part: at every node without live snapshot/iterator, after one reclamation opportunity (flush of the possibly empty memtable, background idle) the three directories hold exactly CURRENT, LOCK, the current manifest, WALs >= the version's WAL number and the tables of the current layout; with a live snapshot/iterator every table of the current layout exists; schedule part: no read of a reader concurrent with compaction + deletion ever touches a removed file (strict unlink); schedule x fault part: a reader whose own table reads fail runs against flushes / compactions installing new versions, and after the fault is disarmed, everything compacted and the background idle the directories again hold exactly the needed files; crash part: every crash image (prefix of the filesystem-operation log) of the covering and generated histories is recovered, and the directories hold exactly the needed files twice: as soon as the background work started by the recovery has gone idle, before any operation is issued (the recovery itself reclaims what the crash left behind), and again after probe writes and one flush"));
     rep.finish()
 }
 
@@ -1093,7 +1093,9 @@ pub fn staggered_family(name: &str, depth: usize, ck: Checks) -> SeqSpec {
 /// ranges at every key) must take both level-0 files or neither. `low`: the newer file reaches
 /// below the older one (bounded-end ranges select it alone), else above it.
 pub fn l0_overlap_family(name: &str, low: bool, depth: usize, ck: Checks) -> SeqSpec {
-    let mut alphabet = vec![Op::Put(0, 0), Op::Put(2, 0), Op::Del(1), Op::Batch(vec![(1, true), (2, true)])];
+    // (128 reads of d resp. e: a key inside the newer level-0 file's range that only the older one
+    // stores — the newer file runs out of allowed seeks and is compacted because of reads alone)
+    let mut alphabet = vec![Op::Put(0, 0), Op::Put(2, 0), Op::Del(1), Op::Batch(vec![(1, true), (2, true)]), Op::GetMany(if low { 1 } else { 2 }, 128)];
     let ends: Vec<Option<u8>> = vec![None, Some(0), Some(1), Some(2), Some(3)];
     for b in ends.iter() {
         for e in ends.iter() {
